@@ -35,6 +35,10 @@ def gen_contract_asm(rng, nblocks_init=2, nblocks_run=4, block_kw=None, blocks=N
     kw.setdefault("pseudo", True)
     take = (lambda: blocks.pop(0)) if blocks else (lambda: B.gen_block(rng, ending=True, **kw))
     init = [take() for _ in range(nblocks_init)]
+    if not blocks and rng.random() < 0.5:
+        # the constructor idiom of solc: copy the runtime sub-assembly and return it
+        sub = "%064x" % 0
+        init.append([("PUSH #[$]", sub), ("DUP1", None), ("PUSH [$]", sub), ("PUSH", "0"), ("CODECOPY", None), ("PUSH", "0"), ("RETURN", None)])
     run = [take() for _ in range(nblocks_run)]
     asm = {".code": code_of(init, rng), ".data": {"0": {".auxdata": "a264%04x" % rng.getrandbits(16),
                                                        ".code": code_of(run, rng)}}}
